@@ -36,7 +36,13 @@ INTS = [0, 1, -1, 2, 3, 7, -7, 100000, 2 ** 31, 2 ** 40, 12]
 
 
 def dst_format(dstfixed):
-    return "x" if dstfixed is True else "q" if dstfixed is False else dstfixed
+    """True: fixed-point array-map variable; False: 8-byte integer; a format: that integer format;
+    "hash:x" / "hash:q": a hash-map variable of that format"""
+    return "x" if dstfixed is True else "q" if dstfixed is False else dstfixed.split(":")[-1]
+
+
+def dst_is_hash(dstfixed):
+    return isinstance(dstfixed, str) and dstfixed.startswith("hash:")
 
 
 def build(op, lk, rk, dstfixed, lc, rc, use_kernel=False, scope=None):
@@ -46,10 +52,11 @@ def build(op, lk, rk, dstfixed, lc, rc, use_kernel=False, scope=None):
     from ebpfcat.arraymap import ArrayMap
     from ebpfcat.hashmap import HashMap
     m = ArrayMap()
-    hm = HashMap() if lk.endswith("hash") or rk.endswith("hash") else None
+    hm = HashMap() if lk.endswith("hash") or rk.endswith("hash") or dst_is_hash(dstfixed) else None
     decl = lambda k: (hm if k.endswith("hash") else m).globalVar("x" if k.startswith("fix") else "q")
     # dstfixed: True (fixed-point destination), False (8-byte integer), or the format of an integer destination
-    ns = dict(license="GPL", m=m, la=decl(lk), lb=decl(rk), out=m.globalVar(dst_format(dstfixed)),
+    ns = dict(license="GPL", m=m, la=decl(lk), lb=decl(rk),
+              out=(hm if dst_is_hash(dstfixed) else m).globalVar(dst_format(dstfixed)),
               mk1=m.globalVar("B"), mk2=m.globalVar("B"), mk3=m.globalVar("B"))
     if hm is not None:
         ns["hm"] = hm
@@ -198,6 +205,32 @@ def byte_order_destinations(quick):
     return out
 
 
+def hash_destinations(quick):
+    """the destination is a hash-map variable (fixed-point or integer): the assignment goes through the helper call
+    of HashGlobalVarDesc.__set__, which has to convert between integers and fixed point like Memory._set does.
+    (F51 - a whole number stored unscaled into a fixed-point hash variable - was found by C09; C02's destinations
+    had all been array-map variables.)"""
+    out = []
+    k = 0
+    for dst in ("hash:x", "hash:q"):
+        for op in ARITH:
+            for lk, rk in itertools.product(["intvar", "fixvar", "iconst", "fconst", "intreg", "fixreg", "fixhash"],
+                                            ["intvar", "fixvar", "iconst", "fconst"]):
+                if op == "mov" and rk != "iconst":
+                    continue
+                if lk.endswith("const") and rk.endswith("const") and op != "mov":
+                    continue
+                k += 1
+                if quick and k % 3 and op != "mov":
+                    continue
+                lc = ICONSTS[k % len(ICONSTS)] if lk == "iconst" else FCONSTS[k % len(FCONSTS)]
+                rc = ICONSTS[(k * 3 + 1) % len(ICONSTS)] if rk == "iconst" else FCONSTS[(k * 5 + 2) % len(FCONSTS)]
+                if op in ("truediv", "floordiv", "mod") and rk == "iconst" and rc == 0:
+                    rc = 3
+                out.append((op, lk, rk, dst, lc, rc))
+    return out
+
+
 def raw_memory_operands(quick):
     out = []
     k = 0
@@ -226,7 +259,8 @@ def raw_memory_operands(quick):
 
 
 def run(ctx):
-    run_shapes(ctx, shapes_of(ctx.quick) + byte_order_destinations(ctx.quick) + raw_memory_operands(ctx.quick),
+    run_shapes(ctx, shapes_of(ctx.quick) + byte_order_destinations(ctx.quick) + raw_memory_operands(ctx.quick)
+               + hash_destinations(ctx.quick),
                5 if ctx.quick else 10)
 
 
@@ -261,6 +295,8 @@ def run_shapes(ctx, shapes, nvec, part=""):
         for va, vb in vecs:
             buf = bytearray(vs)
             hashes = []
+            if dst_is_hash(dstfixed):                 # as after load(): the variable exists, with its default 0
+                hashes.append((hfd, bytes([type(inst).__dict__["out"].count]), bytes(8)))
             lr, rr = dict(lrec), dict(rrec)
             for var, v, kind, rec in (("la", va, lk, lr), ("lb", vb, rk, rr)):
                 if kind.endswith("const"):
@@ -278,9 +314,12 @@ def run_shapes(ctx, shapes, nvec, part=""):
                     buf[off:off + 8] = bytes(word(v, 8))
             c = progs.case(b, arr={arrfd: bytes(buf)}, hashes=hashes)
             dfmt = dst_format(dstfixed)
-            c.update(op=op, l=lr, r=rr, dstfixed=dstfixed is True,
-                     dst=dict(fd=arrfd, off=inst.__dict__["out"], size=8 if dfmt == "x" else struct.calcsize(dfmt),
-                              be=dfmt[0] in ">!"), n=N,
+            if dst_is_hash(dstfixed):
+                drec = dict(fd=hfd, off=0, size=8, key=[type(inst).__dict__["out"].count])
+            else:
+                drec = dict(fd=arrfd, off=inst.__dict__["out"], size=8 if dfmt == "x" else struct.calcsize(dfmt),
+                            be=dfmt[0] in ">!")
+            c.update(op=op, l=lr, r=rr, dstfixed=dstfixed is True or dfmt == "x", dst=drec, n=N,
                      marks=[dict(i=i, fd=arrfd, off=inst.__dict__[f"mk{i}"]) for i in (1, 2, 3)],
                      ast=dict(k="const", v=word(0, N)), leaves=[])
             cases.append(c)
@@ -333,7 +372,7 @@ def run_shapes(ctx, shapes, nvec, part=""):
             ctx.case_failed(dict(m, verdict=kind, status=st_, observed=got, admissible=expected, div_on_negative=divneg),
                             f"{m['left']}({m['va'] if m['lconst'] is None else m['lconst']}) {m['op']} "
                             f"{m['right']}({m['vb'] if m['rconst'] is None else m['rconst']}) -> "
-                            f"{'fixed' if m["dstfixed"] is True else 'int'}: {kind} {st_ or ''} observed {got} admissible {expected}")
+                            f"{'fixed' if m['dstfixed'] is True else 'int' if m['dstfixed'] is False else m['dstfixed']}: {kind} {st_ or ''} observed {got} admissible {expected}")
     if part:
         ctx.extra[part + "verdicts"] = counts
         ctx.extra[part + "statements"] = len(shapes)
